@@ -589,6 +589,8 @@ def _mm_klass(nd, p, rule):
         return "twin=second-chain-on-same-input"
     if "cshape" in nd and rule["id"] in ("min_max_rule", "max_min_rule") \
             and set(nd) <= {"cshape", "vals", "cshape2", "xshape", "xpos", "twin"}:
+        if len(nd["cshape"]) > len(p["xshape"]):
+            return "cshape=singleton-of-rank>x-rank"
         return "cshape=" + str(nd["cshape"]).replace(" ", "")
     return None
 
